@@ -1245,90 +1245,70 @@ func (ex *Exec) strEq(a, b Str) Bool {
 	return ex.ropeEq(a, b)
 }
 
-// ropeEq compares strings that contain Dec/Opaque segments (see DESIGN §2.2).
+// ropeEq compares strings that contain Dec/Opaque segments (DESIGN §2.2).
+// A decimal segment stands for a non-empty string over [-0-9]. Without symbolic
+// plain bytes both strings are cut into maximal numeric runs and literal bytes:
+// equal strings have the same pattern of literals and runs, so a differing
+// pattern decides "unequal"; runs are compared pairwise (decimal formatting is
+// injective). With symbolic plain bytes only item-wise aligned strings are compared.
 func (ex *Exec) ropeEq(a, b Str) Bool {
-	// split into runs
-	type run struct {
-		bytes []Int
-		seg   *Int
-	}
-	split := func(s Str) []run {
-		var out []run
-		cur := run{}
-		for i := range s.B {
-			x := s.B[i]
-			if x.W == 8 {
-				cur.bytes = append(cur.bytes, x)
-			} else {
-				cur.seg = &s.B[i]
-				out = append(out, cur)
-				cur = run{}
+	hasSym := false
+	for _, s := range []Str{a, b} {
+		for _, x := range s.B {
+			if x.W == wOpaque {
+				unsupported("comparison of opaque formatted strings")
 			}
-		}
-		out = append(out, cur)
-		return out
-	}
-	ra, rb := split(a), split(b)
-	// one side plain bytes (all concrete), the other bytes + one decimal segment + bytes
-	if len(ra) == 1 && len(rb) == 2 {
-		ra, rb = rb, ra
-		a, b = b, a
-	}
-	if len(ra) == 2 && len(rb) == 1 && ra[0].seg.W == wDec {
-		if cs, ok := b.conc(); ok {
-			pre, okp := Str{B: ra[0].bytes}.conc()
-			suf, oks := Str{B: ra[1].bytes}.conc()
-			if okp && oks {
-				if len(cs) < len(pre)+len(suf) || cs[:len(pre)] != pre || cs[len(cs)-len(suf):] != suf {
-					return Bool{C: false}
-				}
-				mid := cs[len(pre) : len(cs)-len(suf)]
-				n, err := strconv.ParseInt(mid, 10, 64)
-				if err != nil || strconv.FormatInt(n, 10) != mid {
-					return Bool{C: false}
-				}
-				seg := ra[0].seg
-				if seg.T == nil {
-					return Bool{C: int64(seg.C) == n}
-				}
-				return mkBool(mkEq(seg.T, mkConst(uint64(n), 64)))
+			if x.W == 8 && x.T != nil {
+				hasSym = true
 			}
 		}
 	}
-	nseg := len(ra) - 1
-	if len(ra) != len(rb) {
-		unsupported("comparison of formatted strings with different skeletons")
+	decTerm := func(x Int) *Term {
+		if x.T != nil {
+			return x.T
+		}
+		return mkConst(x.C, 64)
 	}
-	var parts []*Term
-	for i := range ra {
-		if len(ra[i].bytes) != len(rb[i].bytes) {
+	if hasSym {
+		rng := func(s Str) (lo, hi int) {
+			for _, x := range s.B {
+				if x.W == wDec {
+					lo, hi = lo+1, hi+20
+				} else {
+					lo, hi = lo+1, hi+1
+				}
+			}
+			return
+		}
+		alo, ahi := rng(a)
+		blo, bhi := rng(b)
+		if ahi < blo || bhi < alo {
+			return Bool{C: false}
+		}
+		if len(a.B) != len(b.B) {
 			unsupported("comparison of formatted strings with different skeletons")
 		}
-		// with several segments the separators must be concrete non-numeric bytes
-		if nseg > 1 && i > 0 && i < len(ra)-1 {
-			if len(ra[i].bytes) == 0 {
-				unsupported("adjacent formatted segments")
+		var parts []*Term
+		for i := range a.B {
+			p, q := a.B[i], b.B[i]
+			if p.W != q.W {
+				unsupported("comparison of formatted strings with different skeletons")
 			}
-			for _, s := range [][]Int{ra[i].bytes, rb[i].bytes} {
-				f := s[0]
-				if f.T != nil || (f.C >= '0' && f.C <= '9') || f.C == '-' {
-					unsupported("formatted segments separated by numeric/symbolic bytes")
-				}
+			if p.W == wDec {
+				parts = append(parts, mkEq(decTerm(p), decTerm(q)))
+				continue
 			}
-		}
-		for j := range ra[i].bytes {
-			p, q := ra[i].bytes[j], rb[i].bytes[j]
 			if p.T == nil && q.T == nil {
 				if p.C != q.C {
-					if nseg > 1 {
-						unsupported("formatted strings differing in literal bytes")
+					// a literal difference next to a decimal segment of unknown
+					// length is only conclusive before the first segment
+					before := true
+					for _, x := range a.B[:i] {
+						if x.W == wDec {
+							before = false
+						}
 					}
-					// one segment each, same run lengths: strings of equal total
-					// structure; a differing literal byte means unequal only if the
-					// segment lengths agree, which we cannot see -> but total
-					// prefix before the segment is fixed-length, so a differing
-					// byte in run 0 decides; in the last run it does not.
-					if i == 0 {
+					if before {
 						return Bool{C: false}
 					}
 					unsupported("formatted strings differing after a segment")
@@ -1337,25 +1317,76 @@ func (ex *Exec) ropeEq(a, b Str) Bool {
 			}
 			parts = append(parts, mkEq(p.term(), q.term()))
 		}
-		if ra[i].seg != nil {
-			sa, sb := ra[i].seg, rb[i].seg
-			if sa.W != sb.W {
-				unsupported("comparison of different formatted segment kinds")
-			}
-			if sa.W == wOpaque {
-				if sa.C != sb.C {
-					unsupported("comparison of opaque formatted segments")
+		return mkBool(mkAnd(parts...))
+	}
+	type run struct {
+		lit   byte
+		items []Int // numeric run
+	}
+	isNum := func(x Int) bool { return x.W == wDec || (x.C >= '0' && x.C <= '9') || x.C == '-' }
+	cut := func(s Str) []run {
+		var out []run
+		for _, x := range s.B {
+			if isNum(x) {
+				if n := len(out); n > 0 && out[n-1].items != nil {
+					out[n-1].items = append(out[n-1].items, x)
+				} else {
+					out = append(out, run{items: []Int{x}})
 				}
-				continue
+			} else {
+				out = append(out, run{lit: byte(x.C)})
 			}
-			ta, tb := mkConst(sa.C, 64), mkConst(sb.C, 64)
-			if sa.T != nil {
-				ta = sa.T
+		}
+		return out
+	}
+	ra, rb := cut(a), cut(b)
+	if len(ra) != len(rb) {
+		return Bool{C: false}
+	}
+	var parts []*Term
+	for i := range ra {
+		p, q := ra[i], rb[i]
+		if (p.items == nil) != (q.items == nil) {
+			return Bool{C: false}
+		}
+		if p.items == nil {
+			if p.lit != q.lit {
+				return Bool{C: false}
 			}
-			if sb.T != nil {
-				tb = sb.T
+			continue
+		}
+		// numeric runs
+		conc := func(it []Int) (string, bool) {
+			b := make([]byte, len(it))
+			for i, x := range it {
+				if x.W != 8 {
+					return "", false
+				}
+				b[i] = byte(x.C)
 			}
-			parts = append(parts, mkEq(ta, tb))
+			return string(b), true
+		}
+		ps, pc := conc(p.items)
+		qs, qc := conc(q.items)
+		switch {
+		case pc && qc:
+			if ps != qs {
+				return Bool{C: false}
+			}
+		case len(p.items) == 1 && p.items[0].W == wDec && len(q.items) == 1 && q.items[0].W == wDec:
+			parts = append(parts, mkEq(decTerm(p.items[0]), decTerm(q.items[0])))
+		case len(p.items) == 1 && p.items[0].W == wDec && qc, len(q.items) == 1 && q.items[0].W == wDec && pc:
+			seg, cs := p.items[0], qs
+			if pc {
+				seg, cs = q.items[0], ps
+			}
+			n, err := strconv.ParseInt(cs, 10, 64)
+			if err != nil || strconv.FormatInt(n, 10) != cs {
+				return Bool{C: false}
+			}
+			parts = append(parts, mkEq(decTerm(seg), mkConst(uint64(n), 64)))
+		default:
+			unsupported("comparison of composite numeric runs in formatted strings")
 		}
 	}
 	return mkBool(mkAnd(parts...))
